@@ -345,3 +345,16 @@ Qed.
 Example C09_chain_id_nonvacuous :
   Start ex_parse (fun _ => reply_result JNull (JStr (bs "0x7e6"))) (-1)%Z = (Ok 2022%Z, [net_version_frame]).
 Proof. vm_compute. reflexivity. Qed.
+
+(* Tie of the hand-written JSON-RPC error codes of Rpc/Model.v to the source.  Gen/Consts.v is
+   regenerated on every run by the translator harness/cmd/gen_consts from the `const` declarations
+   of pkg/rpcbackend/backend.go as they are NOW (internal/rpcserver declares no codes of its own, it
+   uses these).  The model keeps its own literals; this theorem is what breaks when a code changes
+   in the source. *)
+From FFS Require Gen.Consts.
+Theorem C09_source_constants :
+  Gen.Consts.rpcbackend_RPCCodeParseError = Rpc.Model.RPCCodeParseError /\
+  Gen.Consts.rpcbackend_RPCCodeInvalidRequest = Rpc.Model.RPCCodeInvalidRequest /\
+  Gen.Consts.rpcbackend_RPCCodeInternalError = Rpc.Model.RPCCodeInternalError.
+Proof. vm_compute. repeat split; reflexivity. Qed.
+Print Assumptions C09_source_constants.
